@@ -13,7 +13,10 @@ THEOREMS = ['FlexVerif.every_tested_symbol_is_definable'] + ['FlexVerif.C19Opts.
     'lex_compat_refused', 'full_and_fast_refused', 'full_metaecs_refused', 'full_interactive_refused',
     'main_tablesfile_refused', 'csize_default_7bit', 'csize_default_8bit', 'csize_explicit_kept', 'interactive_default',
     'lex_compat_implies', 'cxx_array_overridden', 'cxx_array_warns', 'accepted_consistent')] + [
-    'FlexVerif.Opt.tautA_sound', 'FlexVerif.Opt.Stmt.errs_sound', 'FlexVerif.Opt.Stmt.wp_sound']
+    'FlexVerif.Opt.tautA_sound', 'FlexVerif.Opt.Stmt.errs_sound', 'FlexVerif.Opt.Stmt.wp_sound', 'FlexVerif.Opt.Stmt.run_drop'] + [
+    'FlexVerif.C19Opts.' + t for t in ('readin_reads_no_symbol', 'complementary_pairs', 'one_find_action_mode',
+                                       'symbols_wired_1', 'symbols_wired_2', 'symbols_wired_3', 'options_reach_skeleton_1',
+                                       'options_reach_skeleton_2', 'options_reach_skeleton_3', 'options_reach_skeleton_4')]
 
 # option sets the manual calls contradictory: flex must refuse each with a message (the failing input
 # looked for when one of the theorems above no longer checks)
@@ -47,6 +50,11 @@ def regen_options(src):
         fcntl.flock(lock, fcntl.LOCK_UN)
         lock.close()
     return info, None
+
+
+# options with a value: parse.y stores it in a variable the <OPTION> actions do not set
+VALUED = {'yylmax', 'bufsize', 'prefix', 'extra-type', 'yyclass', 'yydecl', 'yyterminate', 'header-file', 'tabsize', 'emit',
+          'tables-file', 'outfile', 'pre-action', 'post-action', 'user-init'}
 
 
 def model_words(opts):
@@ -445,6 +453,11 @@ def _pair_job(job):
     open(lf, 'w').write(text)
     rc, so, se = flexrun.run_flex(flex, lf, cf, [], cwd=d, timeout=30)
     res = {'pair': [a, b], 'rc': rc, 'problem': None, 'stderr': se[-600:]}
+    if rc == 0:
+        try:
+            res['syms'] = sorted(set(re.findall(r'^/\* (<?M4_[A-Za-z0-9_.]+>?)(?: = .*)? \*/$', open(cf, errors='replace').read(), re.M)))
+        except OSError:
+            pass
     if rc == -999:
         res['problem'] = 'flex does not terminate'
     elif rc != 0:
@@ -578,11 +591,13 @@ def run(ctx):
             ctx.violation('%%option %s: the manual calls these contradictory, flex %s' % (
                 ' '.join(opts), 'accepts them' if rc == 0 else 'fails without a message'), {'options': opts, 'flex_stderr': se[-300:]})
     # ---- the regenerated option model against flex: same verdict, same message, same warning ---------
-    ncmp = nmodel_err = 0
+    ncmp = nmodel_err = nsymcmp = 0
+    quiet = set(optinfo.get('quiet_symbols', [])) if optinfo else set()
+    names = set(optinfo.get('symbol_names', [])) - quiet if optinfo else set()
     if optinfo and not any('lake build failed' in b or 'Gen.Options' in b or 'Driver' in b for b in broken):
         msgs = optinfo['messages']
         cases = [(r['pair'], r) for r in pres]
-        lines = [' '.join(model_words(pair)) for pair, _ in cases]
+        lines = [' '.join(['ctrl.prefix=1', 'top_buf.elts=1'] + model_words(pair)) for pair, _ in cases]
         drc, out, err = flexrun.run_driver(['optrun'], input_text='\n'.join(lines) + '\n', timeout=120)
         outs = out.split('\n')
         for (pair, r), mo in zip(cases, outs):
@@ -592,6 +607,9 @@ def run(ctx):
             real_msg = next((m for m in msgs if m in r['stderr']), None)
             real_refused_here = r['rc'] != 0 and real_msg is not None and 'warning' not in [l for l in r['stderr'].split('\n') if real_msg in l][0]
             prob = None
+            m = re.search(r' readin-err\[(.*)\]$', mo)
+            if m:
+                mo = 'err ' + m.group(1)
             if mo.startswith('err '):
                 nmodel_err += 1
                 if r['rc'] == 0:
@@ -605,6 +623,14 @@ def run(ctx):
                     for w in re.findall(r'warn\[([^\]]*)\]', mo):
                         if r['rc'] == 0 and w not in r['stderr']:
                             prob = 'the model of check_options() warns "%s", flex does not' % w
+                    m = re.search(r' syms=(\S*)', mo)
+                    if prob is None and m and r['rc'] == 0 and 'syms' in r and not VALUED.intersection(o.split('=')[0] for o in pair):
+                        model_syms = set(m.group(1).split(',')) - quiet
+                        real_syms = set(r['syms']) & names
+                        nsymcmp += 1
+                        if model_syms != real_syms:
+                            prob = ('m4 symbols: the model of readin() defines %s which flex does not, flex defines %s which the model does not'
+                                    % (sorted(model_syms - real_syms), sorted(real_syms - model_syms)))
             if prob:
                 nprob += 1
                 npair_bad += 1
@@ -633,7 +659,7 @@ def run(ctx):
         'pairs_checked': len(pres), 'pairs_refused': sum(1 for r in pres if r.get("refused")), 'pairs_bad': npair_bad,
         'pairs_cli_compared': sum(1 for r in pres if r.get('cli')), 'pairs_run': sum(1 for r in pres if r.get('ran')),
         'pairs_user_text_must_fit': sum(1 for r in pres if r.get('user_text_must_fit')),
-        'must_refuse_sets': nmust, 'option_model_compared_pairs': ncmp, 'option_model_refusals': nmodel_err,
+        'must_refuse_sets': nmust, 'option_model_symbol_sets_compared': nsymcmp, 'option_model_compared_pairs': ncmp, 'option_model_refusals': nmodel_err,
         'option_model': ({k: optinfo[k] for k in ('messages', 'options_not_modelled', 'opaque_statements_in_check_options')}
                          if optinfo else {'error': opterr}),
     }
